@@ -162,7 +162,15 @@ def check_case(run, case, tier='quick'):
                     extra = rng.choice([['--skip_brute'], ['--all_lower'], ['--skip_brute', '--all_lower']])
                     run.ev('resumes_with_other_flags')
                 argv_c = (['-r', name, '-s', sn] + extra) if (c and rng.random() < 0.5) else (argv + extra)
-                r = session.run_main(argv_c + (['--load'] if c else []), trigger=trig, max_guesses=4 * est + 1000)
+                typed_ahead = None
+                if c >= 1 and not last and rng.random() < 0.2:
+                    # the quit request is already waiting on standard input when the resumed run starts: whenever the tool gets to see it - while it rebuilds its
+                    # queue or at its first look at the flag - the interrupted history owes the same pre-terminals
+                    typed_ahead = session.Stdin()
+                    typed_ahead.feed('q')
+                    fired['ok'] = True
+                    run.ev('resumed_runs_with_a_quit_typed_ahead')
+                r = session.run_main(argv_c + (['--load'] if c else []), trigger=trig, max_guesses=4 * est + 1000, stdin=typed_ahead)
                 run.ev('main_runs'); run.ev('POP', len(r.pops))
                 if r.exc is not None:
                     run.violation(f'main() raised {r.exc!r} in cycle {c}', case, observed=r.stderr[-500:]); return
